@@ -16,8 +16,7 @@ LEVEL = "exploration"
 SYSTEMS = ["triclinic", "monoclinic", "orthorhombic", "tetragonal", "hexagonal", "rhombohedral"]
 
 
-def generate(seed, tier="quick"):
-    rng = G.rng_of("C14", seed)
+def _gen_call(rng):
     n_snap = rng.choice([0, 1, 2, 3, 4, 5, 6, 8, 10, 12])
     n_grains = rng.choice([2, 3, 5, 8, 13, 20, 40])
     W = rng.choice([1, 2, 2, 3, 4, 5, 7, 8, 12, 16])
@@ -35,20 +34,34 @@ def generate(seed, tier="quick"):
     stalls = {}
     if rng.random() < 0.3 and n_snap:
         stalls[str(rng.randrange(n_snap))] = rng.uniform(5, 100)
-    path = rng.choice(["pool", "pool", "ncpus", "ncpus", "ray"])
     return {
-        "property": PROPERTY, "engine": "simpool", "seed": seed,
         "stack": {"n_snap": n_snap, "n_grains": n_grains, "seed": rng.randrange(1 << 30),
                   "kind": rng.choice(["random", "random", "clustered", "mixed"]),
                   "dup": rng.random() < 0.2},
         "system": rng.choice(SYSTEMS[:5] * 3 + SYSTEMS[5:]),
         "bins": rng.choice([None, None, 10, 45, 90]),
-        "path": path, "W": W,
+        "path": rng.choice(["pool", "pool", "ncpus", "ncpus", "ray"]), "W": W,
         "pool": {"durations": durations, "stalls": stalls,
                  "feed_depth": rng.choice([None, None, 0, 1, 3]),
                  "default_chunksize": rng.choice([1, 1, 1, 2, 3])},
         "ray_order_seed": rng.randrange(1 << 30),
+        "reuse_pool": rng.random() < 0.6,
     }
+
+
+def generate(seed, tier="quick"):
+    """A history of 1-4 batched calls; an externally supplied pool may be reused by later
+    calls (other stacks, other lattice systems, other bin counts)."""
+    rng = G.rng_of("C14", seed)
+    n_calls = rng.choice([1, 1, 2, 2, 3, 4])
+    calls = [_gen_call(rng) for _ in range(n_calls)]
+    if n_calls > 1 and rng.random() < 0.5:
+        # same stack and bins through another lattice system (results must follow the system)
+        for c in calls[1:]:
+            if rng.random() < 0.6:
+                c["stack"] = dict(calls[0]["stack"])
+                c["bins"] = calls[0]["bins"]
+    return {"property": PROPERTY, "engine": "simpool", "seed": seed, "calls": calls}
 
 
 def build_stack(spec):
@@ -112,11 +125,34 @@ class FakeRay:
 
 
 def execute(scn):
-    pydrex = boot()
+    boot()
+    verdicts, c = [], {}
+    h = hashlib.sha256()
+    shared_pool = {"pool": None, "log": None}
+    sigs = []
+    any_reordered = False
+    states = set()
+    for k, call in enumerate(scn["calls"]):
+        r = _one_call(call, k, shared_pool, verdicts, c)
+        h.update(r["digest"].encode())
+        sigs.append(r["sig"])
+        any_reordered = any_reordered or r["reordered"]
+        states.add(r["state"])
+    c["calls"] = len(scn["calls"])
+    c[f"history_len.{len(scn['calls'])}"] = 1
+    h.update(repr([(x["clause"], x["op"], sorted(x["detail"].items(), key=str)) for x in verdicts]).encode())
+    stats = {
+        "counters": c, "maxima": {}, "sim_strain": 0.0, "sig": ";".join(sigs),
+        "nontrivial": any_reordered,
+        "states": sorted(states),
+    }
+    return {"verdicts": verdicts, "digest": h.hexdigest(), "stats": stats}
+
+
+def _one_call(scn, k, shared_pool, verdicts, c):
     import pydrex.diagnostics as pdiag
     from pydrex import geometry as geo
 
-    verdicts, c = [], {}
     system = getattr(geo.LatticeSystem, scn["system"])
     stack = build_stack(scn["stack"])
     bins = scn["bins"]
@@ -130,27 +166,29 @@ def execute(scn):
             scalar_exc = type(e).__name__
             break
     log = {}
-    seen = []
+    submitted_items = []
 
     def v(clause, detail):
-        verdicts.append({"property": PROPERTY, "clause": clause, "op": 0, "m": None, "detail": detail})
+        verdicts.append({"property": PROPERTY, "clause": clause, "op": k, "m": None, "detail": detail})
 
     saved = (pdiag.Pool, pdiag.HAS_RAY, getattr(pdiag, "ray", None), getattr(pdiag, "_dstr", None))
-    real_scalar = pdiag.misorientation_index
     factory_calls = []
+    out = exc = None
+    pcfg = scn["pool"]
     try:
-        # count submissions at the scalar function (exactly-once)
-        def counting_scalar(orientations, system, bins=None):
-            seen.append(np.array(orientations, copy=True))
-            return real_scalar(orientations, system, bins)
-
-        pdiag.misorientation_index = counting_scalar
-        out = exc = None
-        pcfg = scn["pool"]
         try:
             if scn["path"] == "pool":
-                pool = SimPool(scn["W"], log=log, **pcfg)
+                if scn.get("reuse_pool") and shared_pool["pool"] is not None:
+                    pool = shared_pool["pool"]
+                    log = shared_pool["log"]
+                    log["completion_order"] = []
+                    c["external_pool_reused"] = c.get("external_pool_reused", 0) + 1
+                else:
+                    pool = SimPool(scn["W"], log=log, **pcfg)
+                    shared_pool["pool"], shared_pool["log"] = pool, log
+                n_before = len(log.get("items", []))
                 out = pdiag.misorientation_indices(stack, system, bins=bins, pool=pool)
+                submitted_items = log.get("items", [])[n_before:]
             elif scn["path"] == "ncpus":
                 def factory(processes=None, *a, **kw):
                     factory_calls.append(processes)
@@ -158,12 +196,14 @@ def execute(scn):
 
                 pdiag.Pool = factory
                 out = pdiag.misorientation_indices(stack, system, bins=bins, ncpus=scn["W"])
+                submitted_items = log.get("items", [])
             else:
                 fake = FakeRay(None, scn["ray_order_seed"], log)
 
                 class _Remote:
                     @staticmethod
                     def remote(ref, system=None, bins=None):
+                        submitted_items.append(ref.obj)
                         return FakeRay.Future(
                             lambda: pdiag.misorientation_index(ref.obj, system, bins))
 
@@ -177,7 +217,6 @@ def execute(scn):
         except Exception as e:  # noqa: BLE001
             exc = e
     finally:
-        pdiag.misorientation_index = real_scalar
         pdiag.Pool, pdiag.HAS_RAY = saved[0], saved[1]
         if saved[2] is None:
             if hasattr(pdiag, "ray"):
@@ -190,94 +229,89 @@ def execute(scn):
         else:
             pdiag._dstr = saved[3]
     n = len(stack)
-    c[f"path.{scn['path']}"] = 1
-    c["snapshots"] = n
-    c[f"workers.{min(scn['W'], 16)}"] = 1
-    comp = log.get("completion_order", [])
-    reordered = list(comp) != sorted(comp)
-    c["completion_order_differs_from_submission"] = int(reordered)
+    c[f"path.{scn['path']}"] = c.get(f"path.{scn['path']}", 0) + 1
+    c["snapshots"] = c.get("snapshots", 0) + n
+    c[f"workers.{min(scn['W'], 16)}"] = c.get(f"workers.{min(scn['W'], 16)}", 0) + 1
+    comp = list(log.get("completion_order", []))
+    reordered = comp != sorted(comp)
+    c["completion_order_differs_from_submission"] = \
+        c.get("completion_order_differs_from_submission", 0) + int(reordered)
     if scalar_exc is not None:
-        c[f"scalar_raises.{scn['system']}.{scalar_exc}"] = 1
-        # the batched variant may raise too; nothing to compare
-        if exc is None and n > 0:
-            c["batched_returned_although_scalar_raises"] = 1
+        key = f"scalar_raises.{scn['system']}.{scalar_exc}"
+        c[key] = c.get(key, 0) + 1
     elif exc is not None:
         v("values", {"what": f"batched variant raised {type(exc).__name__}: {str(exc)[:160]}",
                      "path": scn["path"], "W": scn["W"]})
     else:
         exp = np.array(expected, dtype=float) if n else np.empty(0)
         got = np.asarray(out)
-        c["batches_compared"] = 1
+        c["batches_compared"] = c.get("batches_compared", 0) + 1
         if got.shape != (n,) or got.dtype != np.float64:
             v("values", {"what": "wrong shape/dtype", "shape": list(got.shape), "dtype": str(got.dtype),
                          "expected_len": n})
         elif got.tobytes() != exp.tobytes() and not np.array_equal(got, exp, equal_nan=True):
-            same_multiset = sorted(np.nan_to_num(got, nan=-1).tolist()) == sorted(np.nan_to_num(exp, nan=-1).tolist())
+            same_multiset = sorted(np.nan_to_num(got, nan=-1).tolist()) == \
+                sorted(np.nan_to_num(exp, nan=-1).tolist())
             v("order" if same_multiset else "values",
               {"got": got.tolist(), "expected": exp.tolist(), "path": scn["path"], "W": scn["W"],
+               "system": scn["system"], "call_index": k,
                "completion_order": [int(x) for x in comp]})
-        # each snapshot submitted exactly once, and it is that snapshot
-        if len(seen) != n:
-            v("exactly_once", {"submitted": len(seen), "snapshots": n})
+        # every snapshot handed to the pool exactly once, in snapshot order
+        if len(submitted_items) != n:
+            v("exactly_once", {"submitted_to_pool": len(submitted_items), "snapshots": n,
+                               "path": scn["path"]})
         else:
-            used = [False] * n
-            for s in seen:
-                hit = None
-                for k in range(n):
-                    if not used[k] and s.shape == stack[k].shape and np.array_equal(s, stack[k]):
-                        hit = k
-                        break
-                if hit is None:
-                    v("exactly_once", {"what": "a submitted array is not a (not yet submitted) snapshot"})
+            for j, it in enumerate(submitted_items):
+                a = np.asarray(it)
+                if a.shape != stack[j].shape or not np.array_equal(a, stack[j]):
+                    v("exactly_once", {"what": "item handed to the pool is not the snapshot at "
+                                               "that position", "position": j, "path": scn["path"]})
                     break
-                used[hit] = True
-        if scn["path"] == "ncpus":
-            if factory_calls != [scn["W"]]:
-                v("values", {"what": "Pool factory not called once with the requested worker count",
-                             "calls": [repr(x) for x in factory_calls], "requested": scn["W"]})
-    h = hashlib.sha256()
-    h.update(repr([(x["clause"], sorted(x["detail"].items(), key=str)) for x in verdicts]).encode())
-    h.update(np.asarray(out if out is not None and exc is None else []).tobytes() if scalar_exc is None else b"x")
-    h.update(repr((comp, log.get("calls"), log.get("per_worker"), scalar_exc, type(exc).__name__)).encode())
-    sig = f"{scn['path']}|W{scn['W']}|n{n}|{','.join(str(x) for x in comp)}"
-    stats = {
-        "counters": c, "maxima": {}, "sim_strain": 0.0, "sig": sig,
-        "nontrivial": reordered and scalar_exc is None,
-        "states": [f"{scn['path']}|W{scn['W']}|{scn['system']}|re{int(reordered)}"],
-    }
-    return {"verdicts": verdicts, "digest": h.hexdigest(), "stats": stats}
+        if scn["path"] == "ncpus" and factory_calls != [scn["W"]]:
+            v("values", {"what": "Pool factory not called once with the requested worker count",
+                         "calls": [repr(x) for x in factory_calls], "requested": scn["W"]})
+    hh = hashlib.sha256()
+    hh.update(np.asarray(out if out is not None and exc is None else []).tobytes()
+              if scalar_exc is None else b"x")
+    hh.update(repr((comp, log.get("calls"), scalar_exc, type(exc).__name__)).encode())
+    return {"digest": hh.hexdigest(), "reordered": reordered and scalar_exc is None,
+            "sig": f"{scn['path']}|W{scn['W']}|n{n}|{scn['system'][:4]}|{','.join(str(x) for x in comp)}",
+            "state": f"{scn['path']}|W{scn['W']}|{scn['system']}|re{int(reordered)}"}
 
 
 def shrink_candidates(scn):
     import copy
 
-    st = scn["stack"]
-    for n in (1, 2, 3):
-        if n < st["n_snap"]:
+    calls = scn["calls"]
+    if len(calls) > 1:
+        for i in range(len(calls)):
             s = copy.deepcopy(scn)
-            s["stack"]["n_snap"] = n
-            s["pool"]["durations"] = s["pool"]["durations"][:n] or [1.0]
+            del s["calls"][i]
             yield s
-    if st["n_grains"] > 2:
-        s = copy.deepcopy(scn)
-        s["stack"]["n_grains"] = 2
-        yield s
-    if scn["W"] > 2:
-        s = copy.deepcopy(scn)
-        s["W"] = 2
-        yield s
-    if scn["pool"]["stalls"]:
-        s = copy.deepcopy(scn)
-        s["pool"]["stalls"] = {}
-        yield s
-    if scn["bins"] is not None:
-        s = copy.deepcopy(scn)
-        s["bins"] = None
-        yield s
-    if scn["system"] != "orthorhombic":
-        s = copy.deepcopy(scn)
-        s["system"] = "orthorhombic"
-        yield s
+    for i, call in enumerate(calls):
+        st = call["stack"]
+        for n in (1, 2, 3):
+            if n < st["n_snap"]:
+                s = copy.deepcopy(scn)
+                s["calls"][i]["stack"]["n_snap"] = n
+                s["calls"][i]["pool"]["durations"] = call["pool"]["durations"][:n] or [1.0]
+                yield s
+        if st["n_grains"] > 2:
+            s = copy.deepcopy(scn)
+            s["calls"][i]["stack"]["n_grains"] = 2
+            yield s
+        if call["W"] > 2:
+            s = copy.deepcopy(scn)
+            s["calls"][i]["W"] = 2
+            yield s
+        if call["pool"]["stalls"]:
+            s = copy.deepcopy(scn)
+            s["calls"][i]["pool"]["stalls"] = {}
+            yield s
+        if call["bins"] is not None:
+            s = copy.deepcopy(scn)
+            s["calls"][i]["bins"] = None
+            yield s
 
 
 def uncontrolled_supplement():
@@ -302,13 +336,14 @@ def uncontrolled_supplement():
 
 
 RUNS = {"quick": 6000, "thorough": 150000}
-RULE = ("one evaluation = one seeded stack (0-12 snapshots x 2-40 grains; random, clustered, mixed, "
-        "with a duplicated snapshot in a share) pushed through misorientation_indices via one of "
-        "three entry paths: pool=SimPool, ncpus=k with pydrex.diagnostics.Pool rebound to a SimPool "
+RULE = ("one evaluation = a seeded history of 1-4 batched calls (an externally supplied pool may be "
+        "reused by later calls with other stacks, lattice systems and bin counts), each call a seeded "
+        "stack (0-12 snapshots x 2-40 grains; random, clustered, mixed, with a duplicated snapshot in "
+        "a share) pushed through misorientation_indices via one of three entry paths: pool=SimPool, ncpus=k with pydrex.diagnostics.Pool rebound to a SimPool "
         "factory, or the Ray branch against a stub; SimPool has W in 1..16 simulated workers, "
         "seeded task durations (heavy-tailed / one slow task / decreasing), stalls, lazy feeding and "
         "chunking; the result must equal the scalar function applied snapshot by snapshot, bit for "
-        "bit and in order, and every snapshot must reach the scalar function exactly once. "
+        "bit and in order, and every snapshot must be handed to the pool exactly once, in snapshot order. "
         "distinct = distinct (entry path, W, stack length, simulated completion order); non-trivial "
         "= the simulated completion order differs from the submission order")
 COMPONENTS = {
@@ -321,7 +356,7 @@ COMPONENTS = {
 ASSUMPTIONS = ["batched clause only; the scalar clauses of C14 are pure functions and not decided here",
                "SimPool models the documented ordering guarantees of multiprocessing.Pool, it does not execute a real pool",
                "lattice systems on which the scalar function raises on the unchanged tree (rhombohedral: AssertionError) are counted, not compared"]
-PROBES = ["path.pool", "path.ncpus", "path.ray", "completion_order_differs_from_submission",
+PROBES = ["external_pool_reused", "history_len.3", "path.pool", "path.ncpus", "path.ray", "completion_order_differs_from_submission",
           "workers.1", "workers.16", "batches_compared"]
 
 
